@@ -59,7 +59,7 @@ pub const KNOWN: [&str; 13] = [
 const URL_IDX: usize = 10;
 
 /// queries of the :url capability; a variant may stand for two `<capability>` elements (`|`)
-const URL_QUERIES: [&str; 9] = [
+const URL_QUERIES: [&str; 15] = [
     "?scheme=file",
     "?scheme=http,ftp,file",
     "?scheme=https&foo=bar&scheme=sftp",
@@ -69,13 +69,25 @@ const URL_QUERIES: [&str; 9] = [
     "?scheme=FILE,http",
     "", // no query at all: not the :url capability (Unknown)
     "?foo=bar&scheme=file,sftp",
+    // parameters whose NAME merely contains "scheme": they are not the scheme parameter
+    "?scheme=file&fallback-scheme=ftp",
+    "?xscheme=http,ftp",
+    "?scheme-x=ftp&scheme=file",
+    "?scheme=file&other=scheme=ftp",
+    "?SCHEME=ftp&scheme=file",
+    "?scheme=file&scheme",
 ];
 
 /// capability texts that are not (or not exactly) one of the known ones
-const NOISE: [&str; 11] = [
+const NOISE: [&str; 15] = [
     "urn:example:vendor:thing:1.0",
     "urn:ietf:params:netconf:capability:xpath:1.0?module=x",
     "urn:ietf:params:netconf:capability:candidate:1.0#frag",
+    // an empty fragment / an empty query are still not the bare URI
+    "urn:ietf:params:netconf:capability:candidate:1.0#",
+    "urn:ietf:params:netconf:capability:writable-running:1.0?",
+    "urn:ietf:params:netconf:capability:validate:1.1?#",
+    "urn:ietf:params:netconf:capability:confirmed-commit:1.1#",
     "urn:ietf:params:netconf:capability:startup:1.1",
     "URN:ietf:params:netconf:capability:validate:1.1",
     "http://xml.juniper.net/netconf/junos/1.0?x=1",
